@@ -8,6 +8,7 @@ import (
 	"io/fs"
 	"math"
 	"net"
+	"sync/atomic"
 	"time"
 
 	"github.com/tetratelabs/wazero/api"
@@ -367,6 +368,8 @@ type compiledModule struct {
 	// closeWithModule prevents leaking compiled code when a module is compiled implicitly.
 	closeWithModule bool
 	typeIDs         []wasm.FunctionTypeID
+	// closed makes Close release the engine's entry only once: the engine counts its users.
+	closed atomic.Bool
 }
 
 // Name implements CompiledModule.Name
@@ -379,7 +382,9 @@ func (c *compiledModule) Name() (moduleName string) {
 
 // Close implements CompiledModule.Close
 func (c *compiledModule) Close(context.Context) error {
-	c.compiledEngine.DeleteCompiledModule(c.module)
+	if c.closed.CompareAndSwap(false, true) {
+		c.compiledEngine.DeleteCompiledModule(c.module)
+	}
 	// It is possible the underlying may need to return an error later, but in any case this matches api.Module.Close.
 	return nil
 }
